@@ -364,36 +364,21 @@ Qed.
 Lemma cautious_le_hint hint es : (cautious hint es <= hint)%N.
 Proof. unfold cautious. destruct (N.eqb es 0); [lia|apply N.le_min_l]. Qed.
 
-(* ------------------------------------------------------------------ the crux_kv instance: the known class, exactly *)
+(* ------------------------------------------------------------------ the crux_kv instance: no byte string panics it *)
 From Crux Require Import Wire.Kv Wire.KvProofs.
 
-Lemma known_kv_mismatch_spec reg k b :
-  known_kv_mismatch reg k b = true <-> exists x, bridge_in reg b = Some (KOk x) /\ response_kind x <> k.
+Lemma kv_respond_total reg c b : kv_respond reg c b <> BPanic.
 Proof.
-  unfold known_kv_mismatch. destruct (bridge_in reg b) as [[x|e]|]; split.
-  - intros H. exists x. split; [reflexivity|]. intros E. apply kind_eqb_eq in E. rewrite E in H. discriminate.
-  - intros (x' & E & Hne). inversion E; subst x'. destruct (kind_eqb (response_kind x) k) eqn:K; [|reflexivity].
-    apply kind_eqb_eq in K. contradiction.
-  - discriminate.
-  - intros (x & E & _). discriminate.
-  - discriminate.
-  - intros (x & E & _). discriminate.
+  unfold kv_respond, Malformed.handle_response, kv_waiting. cbn [entries core find_entry N.eqb].
+  destruct (decode reg F_result b) as [[v rest]|]; [|discriminate].
+  unfold kv_continuation. destruct (result_of_v v) as [r|].
+  - pose proof (deliver_total Command c r) as T.
+    destruct (deliver Command c r); try contradiction; unfold Malformed.finish; cbn; discriminate.
+  - unfold Malformed.finish; cbn; discriminate.
 Qed.
 
-Lemma kv_respond_panics_iff reg c b :
-  kv_respond reg c b = BPanic <-> known_kv_mismatch reg (call_kind c) b = true.
-Proof.
-  rewrite known_kv_mismatch_spec.
-  unfold kv_respond, Malformed.handle_response, kv_waiting, bridge_in. cbn [entries core find_entry N.eqb].
-  destruct (decode reg F_result b) as [[v rest]|].
-  - unfold kv_continuation. destruct (result_of_v v) as [r|].
-    + destruct (deliver Command c r) eqn:D.
-      * split; [intros H; unfold Malformed.finish in H; cbn in H; discriminate|].
-        intros (x & E & Hne). inversion E; subst r. apply (deliver_mismatch Command c x) in Hne. congruence.
-      * split; [intros H; unfold Malformed.finish in H; cbn in H; discriminate|].
-        intros (x & E & Hne). inversion E; subst r. apply (deliver_mismatch Command c x) in Hne. congruence.
-      * split; [intros _|reflexivity].
-        pose proof (outcome_trichotomy Command c r) as T. rewrite D in T. destruct T as (x & -> & Hne). eauto.
-    + split; [intros H; unfold Malformed.finish in H; cbn in H; discriminate|]. intros (x & E & _). discriminate.
-  - split; [discriminate|]. intros (x & E & _). discriminate.
-Qed.
+(* what the app is told when the bytes are a well-formed result of another kind *)
+Lemma kv_respond_mismatch reg c b x :
+  bridge_in reg b = Some (KOk x) -> response_kind x <> call_kind c ->
+  exists r, bridge_in reg b = Some r /\ deliver Command c r = Failed (mismatch_error (call_kind c)).
+Proof. intros E Hne. exists (KOk x). split; [exact E|now apply deliver_mismatch]. Qed.
